@@ -24,6 +24,7 @@ import (
 	"net"
 	"os"
 	"strings"
+	"sync"
 	"testing"
 	"time"
 	"unicode"
@@ -110,6 +111,13 @@ type kEvent struct {
 	Pout    []string `json:"pout"`
 	Found   bool     `json:"found"`
 	Cmt     string   `json:"cmt"`
+	Rep     int      `json:"rep"`
+	Ok1     bool     `json:"ok1"`
+	Dk1     kAbs     `json:"dk1"`
+	S1      string   `json:"s1"`
+	Pafter  []string `json:"pafter"`
+	Pfirst  []string `json:"pfirst"`
+	Pfirst2 []string `json:"pfirst2"`
 }
 
 // concrete KeyID contents (valid UTF-8 strings only, so plain JSON is faithful)
@@ -647,7 +655,8 @@ func kInstantiate(c kCase, r *mrand.Rand) kInfo {
 // ---- execute
 
 func kNewEvent(op string, cs kCase) *kEvent {
-	return &kEvent{Op: op, Cs: cs, Present: []string{}, Opt: "absent", Pin: []string{}, Pout: []string{}}
+	return &kEvent{Op: op, Cs: cs, Present: []string{}, Opt: "absent", Pin: []string{}, Pout: []string{},
+		Pafter: []string{}, Pfirst: []string{}, Pfirst2: []string{}}
 }
 
 func kText(info *kInfo) string {
@@ -669,7 +678,41 @@ func kDecode(text string) (ok bool, k *kidT, pan bool) {
 	return err == nil, kk, false
 }
 
-func kExecEnc(cs kCase, info *kInfo) []*kEvent {
+// kScramble overwrites every field of a KeyID the code under test handed out (a caller may do with its result what it
+// likes): the elements of the principal list in place, then the list itself, every string, flag and number.
+func kScramble(k *kidT) {
+	if k == nil {
+		return
+	}
+	for i := range k.Principals {
+		k.Principals[i] = "scrambled"
+	}
+	k.Principals = append(k.Principals, "extra")
+	k.TransID, k.ReqUser, k.ReqIP, k.ReqHost = k.TransID+"!", "scrambled", "", k.ReqHost+k.ReqHost
+	k.IsFirefighter, k.IsHWKey, k.IsHeadless, k.IsNonce = true, true, true, true
+	k.TouchPolicy += 2
+	k.Usage += 5
+	k.Version = 7
+}
+
+type kObs struct {
+	ok, pan  bool
+	dk       kAbs
+	tag, tid string
+}
+
+func kObserveDecode(text string) (o kObs, k *kidT) {
+	ok, k2, pan := kDecode(text)
+	o.ok, o.pan = ok, pan
+	if ok && k2 != nil {
+		o.dk, o.tag, o.tid = kAbsOf(k2), kTag(k2), kEnc(k2.TransID)
+	}
+	return o, k2
+}
+
+// kExecEnc encodes the value (in the object obj when given: the same object is reused, overwritten, across calls) and decodes
+// the produced text `calls` times, scrambling every returned KeyID before the next call.  One event per decode.
+func kExecEnc(cs kCase, info *kInfo, obj *kidT, calls int) []*kEvent {
 	e := kNewEvent("enc", cs)
 	orig := info.Kid.concrete()
 	e.K, e.Sin = kAbsOf(orig), kTag(orig)
@@ -681,6 +724,10 @@ func kExecEnc(cs kCase, info *kInfo) []*kEvent {
 			}
 		}()
 		arg := info.Kid.concrete()
+		if obj != nil {
+			*obj = *arg
+			arg = obj
+		}
 		s, err := arg.Marshal()
 		e.Ok = err == nil
 		text = s
@@ -688,26 +735,76 @@ func kExecEnc(cs kCase, info *kInfo) []*kEvent {
 	out := []*kEvent{e}
 	if e.Ok && !e.Pan {
 		e.Present = kPresent(text)
-		ok, k2, pan := kDecode(text)
-		e.Pan = e.Pan || pan
-		e.Dok = ok
-		if ok && k2 != nil {
-			e.Dk, e.Sout, e.Tid = kAbsOf(k2), kTag(k2), kEnc(k2.TransID)
+		for j := 0; j < calls; j++ {
+			ej := e
+			if j > 0 {
+				c := *e
+				ej = &c
+				ej.Rep = j
+				out = append(out, ej)
+			}
+			o, k2 := kObserveDecode(text)
+			ej.Pan, ej.Dok, ej.Dk, ej.Sout, ej.Tid = o.pan, o.ok, o.dk, o.tag, o.tid
+			kScramble(k2)
 		}
 	}
 	return out
 }
 
-func kExecDec(cs kCase, info *kInfo) *kEvent {
-	e := kNewEvent("dec", cs)
+// kExecDec decodes the text `calls` times, scrambling every returned KeyID before the next call.  One event per call; the
+// events of later calls carry what the first call produced.
+func kExecDec(cs kCase, info *kInfo, calls int) []*kEvent {
 	text := kText(info)
-	e.Present = kPresent(text)
-	ok, k2, pan := kDecode(text)
-	e.Ok, e.Pan = ok, pan
-	if ok && k2 != nil {
-		e.Dk, e.Tid = kAbsOf(k2), kEnc(k2.TransID)
+	present := kPresent(text)
+	var first kObs
+	var out []*kEvent
+	for j := 0; j < calls; j++ {
+		e := kNewEvent("dec", cs)
+		e.Present = present
+		o, k2 := kObserveDecode(text)
+		if j == 0 {
+			first = o
+		}
+		e.Ok, e.Pan, e.Dk, e.Sout, e.Tid = o.ok, o.pan, o.dk, o.tag, o.tid
+		e.Rep, e.Ok1, e.Dk1, e.S1 = j, first.ok, first.dk, first.tag
+		kScramble(k2)
+		out = append(out, e)
 	}
-	return e
+	return out
+}
+
+// kExecDecConc: one reference decode, then the same text decoded from several goroutines at once (each scrambles its result).
+func kExecDecConc(cs kCase, info *kInfo, workers int) []*kEvent {
+	text := kText(info)
+	present := kPresent(text)
+	first, k0 := kObserveDecode(text)
+	mk := func(o kObs, rep int) *kEvent {
+		e := kNewEvent("dec", cs)
+		e.Present = present
+		e.Ok, e.Pan, e.Dk, e.Sout, e.Tid = o.ok, o.pan, o.dk, o.tag, o.tid
+		e.Rep, e.Ok1, e.Dk1, e.S1 = rep, first.ok, first.dk, first.tag
+		return e
+	}
+	out := []*kEvent{mk(first, 0)}
+	kScramble(k0)
+	res := make([][]*kEvent, workers)
+	var wg sync.WaitGroup
+	for w := 0; w < workers; w++ {
+		wg.Add(1)
+		go func(w int) {
+			defer wg.Done()
+			for j := 0; j < 2; j++ {
+				o, k2 := kObserveDecode(text)
+				res[w] = append(res[w], mk(o, 1+w*2+j))
+				kScramble(k2)
+			}
+		}(w)
+	}
+	wg.Wait()
+	for _, r := range res {
+		out = append(out, r...)
+	}
+	return out
 }
 
 var kCA = verifh.GenKey("keyid-ca", "ed25519")
@@ -775,32 +872,46 @@ func kExecCert(cs kCase, info *kInfo) *kEvent {
 			pin = crt.ValidPrincipals
 		}
 		e.Pout = kEncAll(kGetPrincipals(pin, ty))
+		e.Pafter = kEncAll(pin)
 	}()
 	return e
 }
 
-func kExecPrins(cs kCase, info *kInfo) *kEvent {
-	e := kNewEvent("prins", cs)
+// kExecPrins calls GetPrincipals twice with the same list (the caller's slice, with spare capacity behind it) and records for
+// each call the result, the contents of the caller's list afterwards, and whether the first result still reads the same.
+func kExecPrins(cs kCase, info *kInfo) []*kEvent {
 	ty := certType(info.Ty)
-	e.Tyin = kTypeName(ty)
 	pin := info.Prins
 	if info.PrNil {
 		pin = nil
 	}
-	e.Pin = kEncAll(pin)
-	func() {
-		defer func() {
-			if recover() != nil {
-				e.Pan = true
+	var in []string
+	if pin != nil {
+		in = make([]string, len(pin), len(pin)+(len(pin)%2)*3)
+		copy(in, pin)
+	}
+	var out []*kEvent
+	var firstRes, firstSnap []string
+	for j := 0; j < 2; j++ {
+		e := kNewEvent("prins", cs)
+		e.Tyin, e.Pin, e.Rep = kTypeName(ty), kEncAll(pin), j
+		func() {
+			defer func() {
+				if recover() != nil {
+					e.Pan = true
+				}
+			}()
+			res := kGetPrincipals(in, ty)
+			e.Pout = kEncAll(res)
+			e.Pafter = kEncAll(in)
+			if j == 0 {
+				firstRes, firstSnap = res, e.Pout
 			}
+			e.Pfirst, e.Pfirst2 = firstSnap, kEncAll(firstRes)
 		}()
-		var in []string
-		if pin != nil {
-			in = append([]string{}, pin...)
-		}
-		e.Pout = kEncAll(kGetPrincipals(in, ty))
-	}()
-	return e
+		out = append(out, e)
+	}
+	return out
 }
 
 type kShimJob struct {
@@ -1062,6 +1173,19 @@ func TestVerifKeyID(t *testing.T) {
 		}
 		distinct[fmt.Sprintf("%s|%v|%v|%v|%s|%v|%s|%s|%v|%s|%s", e.Op, e.Ok, e.Dk, e.Present, e.Ty, e.Lok, e.Opt, e.Tyin, e.K, e.Cs.M, e.Cs.F)] = true
 	}
+	// the event of call number `main` carries the case's tid, the other calls tid.<n>
+	emitAll := func(tid string, main int, evs []*kEvent, info *kInfo) {
+		if main >= len(evs) {
+			main = 0
+		}
+		for j, e := range evs {
+			if j == main {
+				emit(tid, e, info)
+			} else {
+				emit(fmt.Sprintf("%s.%d", tid, j), e, info)
+			}
+		}
+	}
 	var shimJobs []kShimJob
 	flushShim := func() {
 		if len(shimJobs) == 0 {
@@ -1077,15 +1201,25 @@ func TestVerifKeyID(t *testing.T) {
 		in := info
 		switch info.Op {
 		case "enc":
-			for _, e := range kExecEnc(cs, &in) {
-				emit(tid, e, &in)
-			}
+			emitAll(tid, 0, kExecEnc(cs, &in, nil, 3), &in)
 		case "dec":
-			emit(tid, kExecDec(cs, &in), &in)
+			main := 0
+			if cs.Kind == "dec" {
+				main = cs.N
+			}
+			calls := 3
+			if cs.Kind == "free" {
+				calls = 2
+			}
+			emitAll(tid, main, kExecDec(cs, &in, calls), &in)
 		case "cert":
 			emit(tid, kExecCert(cs, &in), &in)
 		case "prins":
-			emit(tid, kExecPrins(cs, &in), &in)
+			main := 0
+			if cs.Kind == "prins" {
+				main = cs.V
+			}
+			emitAll(tid, main, kExecPrins(cs, &in), &in)
 		case "shim":
 			shimJobs = append(shimJobs, kShimJob{cs, &in, tid})
 			if len(shimJobs) >= 48 {
@@ -1115,6 +1249,24 @@ func TestVerifKeyID(t *testing.T) {
 	for i := 0; i < plan.Random["dec"]; i++ {
 		r := verifh.NewRand("keyid-dec", int64(i))
 		run(fmt.Sprintf("bd%d", i), kFree, kInfo{Op: "dec", Text: hex.EncodeToString([]byte(kRandText(r)))})
+	}
+	for i := 0; i < plan.Random["mseq"]; i++ {
+		// one KeyID object encoded again and again, overwritten with another value in between
+		r := verifh.NewRand("keyid-mseq", int64(i))
+		obj := &kidT{}
+		for j := 0; j < 3; j++ {
+			k := kRandAbs(r)
+			if j > 0 && r.Intn(2) == 0 {
+				k.Ver = 1
+			}
+			in := kInfo{Op: "enc", Kid: &k}
+			emitAll(fmt.Sprintf("bm%d_%d", i, j), 0, kExecEnc(kFree, &in, obj, 2), &in)
+		}
+	}
+	for i := 0; i < plan.Random["conc"]; i++ {
+		r := verifh.NewRand("keyid-conc", int64(i))
+		in := kInfo{Op: "dec", Text: hex.EncodeToString([]byte(kRandText(r)))}
+		emitAll(fmt.Sprintf("bq%d", i), 0, kExecDecConc(kFree, &in, 4), &in)
 	}
 	randCert := func(r *mrand.Rand) kInfo {
 		text := kRandText(r)
